@@ -57,6 +57,21 @@ instance inSigned.dec (bits : Nat) (v : Int) : Decidable (inSigned bits v) := by
 /-- the bytes a reader consumed: `bs` minus its suffix `rest` -/
 def consumed (bs rest : Bytes) : Bytes := bs.take (bs.length - rest.length)
 
+/-- optional leading `-` of a decimal string: (negative?, digits) -/
+def splitSign (s : Bytes) : Bool × Bytes :=
+  if s.head? = some 45 then (true, s.tail) else (false, s)
+
+/-- float64 bit pattern of a natural number below 2^53 (exact) -/
+def natToF64Bits (n : Nat) : Nat :=
+  if n = 0 then 0 else
+  let e := n.log2
+  (e + 1023) * 2 ^ 52 + (n * 2 ^ (52 - e) - 2 ^ 52)
+
+/-- consecutive elements as pairs (a trailing odd element is dropped) -/
+def pairUp : List Bytes → List (Bytes × Bytes)
+  | a :: b :: rest => (a, b) :: pairUp rest
+  | _ => []
+
 /- ASCII byte-list literal: `b!"SET"` elaborates to `[83, 69, 84]` (a plain
    list literal, so `decide`/`rfl` can look inside). -/
 open Lean in
